@@ -411,6 +411,38 @@ def r5(prog, run):
                           % (h.qname.split('::')[-1], h.fmt(hit[0], inline=False)[:60]), cfgx.describe_path(h, res[hit[0]]))
         else:
             run.ok(rid, h.loc(), '%s ignores an answer that arrives after its exchange has ended' % h.qname.split('::')[-1])
+    # an exchange that is given up (the stored SASL 2 request is dropped without success) is over on the server as well: the SASL server object is reset or
+    # the connection closed on that path, so that an answer of the password checker that is still on its way cannot complete it
+    hsf = prog.fn(IC + '::handleStanza')
+
+    def ev_end(f, nid):
+        n = f.nodes[nid]
+        if n['k'] == 'assign' and (f.nodes[f.skip(n['l'])].get('f') or '').endswith('::saslServer'):
+            return 'exchange-ended'              # a new exchange replaces (destroys) the SASL server of the old one
+        if n['k'] == 'call':
+            cn = f.cname(n)
+            o = f.nodes[f.skip(n['obj'])] if n.get('obj') is not None else {}
+            if cn.endswith('::reset') and (o.get('f') or '').endswith('::sasl2AuthRequest'):
+                return 'request-dropped'
+            if cn.endswith('::reset') and (o.get('f') or '').endswith('::saslServer'):
+                return 'exchange-ended'
+            if cn.endswith('::disconnectFromHost'):
+                return 'exchange-ended'
+            if cn.endswith('::onSasl2Authenticated'):
+                return 'completed'
+            if n.get('op') == '=' and n.get('opargs') and (f.nodes[f.skip(n['opargs'][0])].get('f') or '').endswith('::saslServer'):
+                return 'exchange-ended'          # a new exchange replaces (destroys) the SASL server of the old one
+        return None
+    for h in (hsf, pr, dr):
+        run.instance(rid)
+        seqs = cfgx.effect_sequences(prog, h, ev_end)
+        bad = [q for q in seqs if 'request-dropped' in q and 'exchange-ended' not in q and 'completed' not in q and '?' not in q]
+        if bad:
+            run.violation(rid, '%s#request-dropped-exchange-kept' % h.qname.split('::')[-1], h.loc(),
+                          '%s drops the stored SASL 2 request on a path that neither resets the SASL server nor closes the connection (effects %s): the password checker\'s answer '
+                          'that is still on its way then authenticates a connection that was told <failure/>' % (h.qname.split('::')[-1], list(bad[0])))
+        else:
+            run.ok(rid, h.loc(), '%s: a dropped SASL 2 request always ends the exchange (%d effect sequences)' % (h.qname.split('::')[-1], len(seqs)), nontrivial=any('request-dropped' in q for q in seqs))
     # digest: challenge only when respond() == Challenge; never success/identity here
     run.instance(rid)
     bad = [i for i, n in dr.all_nodes('assign') if dr.nodes[dr.skip(n['l'])].get('f') == JID]
